@@ -33,3 +33,24 @@ End History.
 Print Assumptions C06_pullback_rolls_back.
 Print Assumptions C06_pullback_fixed_restores.
 Print Assumptions C06_second_sweep_same.
+
+(* ---- the same three facts for the EXECUTABLE instance (coefficient lists, series kernels; what vm_compute runs).  They are structural
+   -- which heap cells are saved, restored and re-applied -- and hold for an arbitrary carrier and arbitrary operations
+   (TracerHistGen.v), no algebraic law is used. *)
+From AlgoV Require Import Series TracerExec TracerHistGen TracerExecHist.
+Theorem C06_exec_pullback_rolls_back (K : fieldType) (D : nat) (t : tape (seq K)) outs (xs ybars : seq (seq K)) : wf_tape (size xs) t ->
+  rheap (X_pullback D t (X_replay D t xs) outs ybars)
+  = xs :: [seq nseq (size row) (x_zero K D) | row <- behead (fheap (X_replay D t xs))].
+Proof. exact: X_pullback_rolls_back. Qed.
+Theorem C06_exec_pullback_fixed_restores (K : fieldType) (D : nat) (t : tape (seq K)) outs (xs ybars : seq (seq K)) : wf_tape (size xs) t ->
+  rheap (X_pullback_fixed D t (X_replay D t xs) outs ybars) = fheap (X_replay D t xs).
+Proof. exact: X_pullback_fixed_restores. Qed.
+Theorem C06_exec_second_sweep_same (K : fieldType) (D : nat) (t : tape (seq K)) outs outs' (xs ybars ybars' : seq (seq K)) : wf_tape (size xs) t ->
+  let fs := X_replay D t xs in
+  let st1 := X_pullback_fixed D t fs outs ybars in
+  X_pullback_fixed D t (FState (rheap st1) (fvals fs) (fstore fs)) outs' ybars'
+  = X_pullback_fixed D t fs outs' ybars'.
+Proof. exact: X_second_sweep_same. Qed.
+Print Assumptions C06_exec_pullback_rolls_back.
+Print Assumptions C06_exec_pullback_fixed_restores.
+Print Assumptions C06_exec_second_sweep_same.
